@@ -9,6 +9,7 @@ META = {
             'programs mixing READ (1-3 variables, integer and single targets), DATA, RESTORE with loops, subroutines and error handlers are validated boundary by boundary.',
     'note': 'Trusted: TLC, hook H1, the program renderer. String items and quoted DATA are outside the fragment (numeric targets only); the value left in the target after a failed numeric READ is not constrained.',
 }
+META['text'] += ' A declarative family makes a READ of several variables fail part-way (Out of DATA, Overflow) under RESUME NEXT: delivered items are consumed, the failing one is not.'
 
 
 def run(ctx):
